@@ -193,9 +193,16 @@ def work(item):
                                                 sig=f"fragmented_raises:prefix:{type(e).__name__}"))
                         continue
                     if got_inc != one_inc:
-                        res["viol"].append(dict(base, kind="fragmentation_changes_result_in_prefix_mode", fragments=repr(parts), oneshot_complete_trees=len(one_inc),
-                                                fragmented_complete_trees=len(got_inc),
-                                                sig="fragmentation_changes_result:prefix:" + ("lost" if not got_inc >= one_inc else "gained")))
+                        # the same model of the recorded defect as in complete mode: all extra trees are valid derivations that use a regex
+                        # split other than the one re.match prefers (which a one-shot scan never explores)
+                        resplit = False
+                        if got_inc > one_inc and not g.binary:
+                            tc_any, tc_pref = TreeChecker(g), TreeChecker(g, preferred_word=w)
+                            resplit = all(tc_any.ok(t, "<start>") is None and snap_text(t) == w and tc_pref.ok(t, "<start>") is not None
+                                          for t in got_inc - one_inc)
+                        res["viol"].append(dict(base, kind="fragmentation_changes_result", mode="prefix", fragments=repr(parts), oneshot_trees=len(one_inc),
+                                                fragmented_trees=len(got_inc), extras_are_nonpreferred_regex_splits=resplit,
+                                                sig="fragmentation_changes_result:prefix:" + ("lost" if not got_inc >= one_inc else "gained") + f":resplit={resplit}"))
             for parts in compositions(w):
                 res["schedules"] += 1
                 try:
